@@ -348,7 +348,7 @@ impl Minimizer {
                     if field == 4 {
                         // simpler entry point
                         let simpler = match &call.op {
-                            Op::Staged { src, opts } | Op::StagedJson { src, opts } | Op::StagedRqEdit { src, opts, .. } => Some(Op::Compile {
+                            Op::Staged { src, opts } | Op::StagedJson { src, opts, .. } | Op::StagedRqEdit { src, opts, .. } => Some(Op::Compile {
                                 src: src.clone(),
                                 opts: opts.clone(),
                             }),
